@@ -671,35 +671,25 @@ fn process_arg(s: &str) -> String {
         return s.to_string();
     }
 
-    // Optimized path: pre-allocate with exact capacity and use efficient iteration
+    // Iterate over characters, not bytes: a byte pushed `as char` turns every
+    // non-ASCII character next to an escape into mojibake.
     let mut result = String::with_capacity(s.len());
-    let bytes = s.as_bytes();
-    let mut i = 0;
+    let mut chars = s.chars();
 
-    while i < bytes.len() {
-        if bytes[i] == b'\\' && i + 1 < bytes.len() {
-            // Handle escape sequence
-            match bytes[i + 1] {
-                b'n' => result.push('\n'),
-                b't' => result.push('\t'),
-                b'r' => result.push('\r'),
-                b':' => result.push(':'),
-                b'|' => result.push('|'),
-                b'\\' => result.push('\\'),
-                b'/' => result.push('/'),
-                b'{' => result.push('{'),
-                b'}' => result.push('}'),
-                other => result.push(other as char),
-            }
-            i += 2;
-        } else if bytes[i] == b'\\' {
-            // Backslash at end of string
-            result.push('\\');
-            i += 1;
-        } else {
+    while let Some(c) = chars.next() {
+        if c != '\\' {
             // Regular character
-            result.push(bytes[i] as char);
-            i += 1;
+            result.push(c);
+            continue;
+        }
+        // Handle escape sequence
+        match chars.next() {
+            Some('n') => result.push('\n'),
+            Some('t') => result.push('\t'),
+            Some('r') => result.push('\r'),
+            Some(other) => result.push(other),
+            // Backslash at end of string
+            None => result.push('\\'),
         }
     }
     result
